@@ -86,7 +86,7 @@ func (w *Walker) loop(s ast.Stmt, in []*State) []*State {
 
 // listLit: the ranged value is a literal array / slice of at most eight elements whose terms are at hand.
 func (w *Walker) listLit(t *Term, rng *ast.RangeStmt) bool {
-	if t.K != KLocal || !strings.HasPrefix(t.Name, "lit") || len(t.Fields) != 0 || len(t.Args) == 0 || len(t.Args) > 8 || t.ST != nil {
+	if t.K != KLocal || !strings.HasPrefix(t.Name, "lit") || len(t.Fields) != 0 || len(t.Args) == 0 || len(t.Args) > 32 || t.ST != nil {
 		return false
 	}
 	switch w.info.TypeOf(rng.X).Underlying().(type) {
@@ -111,8 +111,8 @@ func hasLoopBranch(body *ast.BlockStmt) bool {
 	found := false
 	ast.Inspect(body, func(n ast.Node) bool {
 		switch n.(type) {
-		case *ast.BranchStmt, *ast.ReturnStmt:
-			found = true
+		case *ast.BranchStmt:
+			found = true // (a return simply ends the path, in the unrolled form as in the loop)
 		case *ast.FuncLit:
 			return false
 		}
@@ -845,6 +845,14 @@ func (w *Walker) builtin(name string, call *ast.CallExpr, st *State) []callRes {
 		case "append":
 			t = mkTerm(KCall, "append", c.args...)
 			t.NonNil = false
+			// a written-out list extended element by element stays a written-out list
+			if len(c.args) >= 1 && c.args[0] != nil && c.args[0].List && !call.Ellipsis.IsValid() && len(c.args[0].Args)+len(c.args)-1 <= 32 {
+				nt := fresh("lit")
+				nt.NonNil = true
+				nt.List = true
+				nt.Args = append(append([]*Term{}, c.args[0].Args...), c.args[1:]...)
+				t = nt
+			}
 		case "make", "new":
 			t = fresh("make")
 			t.NonNil = true
@@ -1372,6 +1380,13 @@ func (w *Walker) inlineCallMode(fn *FuncInfo, recv *Term, args []*Term, st *Stat
 		if sig := fn.Obj.Type().(*types.Signature); sig.Results().Len() >= 2 {
 			useful = true // several results decided together (a lookup and its "found"): how they hang together is the point
 		}
+		for _, o := range out {
+			for _, t := range o.ts {
+				if t != nil && t.List {
+					useful = true // a table built by a function
+				}
+			}
+		}
 		// an accessor with a guard ("nil if watch-only, else the own slot"): every result is a piece of state or nil
 		if len(out) >= 1 && len(out) <= 4 && stmtCount(fn.Decl.Body) >= 2 {
 			state := true
@@ -1404,7 +1419,7 @@ func (w *Walker) inlineCallMode(fn *FuncInfo, recv *Term, args []*Term, st *Stat
 				}
 			}
 		}
-		if !useful || len(out) > 6 {
+		if !useful || len(out) > 8 {
 			// remember the verdict only where it cannot depend on the arguments (a result that may be a piece of state
 			// for one caller and opaque for another is tried again)
 			cache := true
